@@ -106,6 +106,15 @@ func c07(c *hc.Ctx) {
 			c.Fail("structure", "Transform changed the command structure", map[string]any{"path": p.String(), "m": fmt.Sprint(m), "out": q.String()})
 			continue
 		}
+		nan := false
+		for _, v := range q.Data() {
+			nan = nan || math.IsNaN(v) || math.IsInf(v, 0)
+		}
+		if nan {
+			// regression class of C07-arc-transform-nan-radii (fixed by 2c3bd2a)
+			c.Fail("transform-nan", "Transform wrote NaN/Inf into the path", map[string]any{"path": p.String(), "m": []float64{m[0][0], m[0][1], m[0][2], m[1][0], m[1][1], m[1][2]}, "out": q.String()})
+			continue
+		}
 		c.Distinct(p.String() + fmt.Sprint(m))
 		scale := math.Sqrt(math.Abs(det)) + math.Abs(m[0][0]) + math.Abs(m[0][1]) + math.Abs(m[1][0]) + math.Abs(m[1][1])
 		tol := 1e-7 * (1 + scale) * 50
